@@ -264,6 +264,7 @@ def analyse(src: Source) -> List[Report]:
                        f"result must be congruent to the input modulo L; abstract result: {val.describe()}")
             summaries[cls.name][mname] = " | ".join(sorted(set(descr)))
         # vector methods
+        vector_ok: Dict[str, bool] = {}
         for vname, ename in (("correct_position", "correct_position_entry"),
                              ("correct_separation", "correct_separation_entry")):
             m = methods.get(vname)
@@ -271,17 +272,18 @@ def analyse(src: Source) -> List[Report]:
             if m is None:
                 rep.ob("R15.3-map", None, loc, vname, "method missing")
                 continue
-            ok, why = _is_componentwise_map(m, cls.name, ename)
+            ok, why = _check_vector_method(m, cls.name, resolve_symbol, ENTRY_SPECS[ename], ENTRY_SPECS)
             rep.ob("R15.3-map", ok, loc, vname, why)
-            summaries[cls.name][vname] = f"map({ename})" if ok else "?"
+            vector_ok[vname] = bool(ok)
+            summaries[cls.name][vname] = f"componentwise within spec of {ename}" if ok else "?"
         m = methods.get("separation_vector")
         loc = Loc(f, m.lineno if m else cls.lineno, f"{cls.name}.separation_vector")
         if m is None:
             rep.ob("R15.3-separation", None, loc, "separation_vector", "method missing")
         else:
-            ok, why = _check_separation_vector(m, cls.name)
+            ok, why = _check_separation_vector(m, cls.name, resolve_symbol, ENTRY_SPECS, vector_ok.get("correct_separation", False))
             rep.ob("R15.3-separation", ok, loc, "separation_vector", why)
-            summaries[cls.name]["separation_vector"] = "correct_separation(target - reference)" if ok else "?"
+            summaries[cls.name]["separation_vector"] = "target - reference, componentwise within the separation spec" if ok else "?"
     rep.expect_min("R15.1-range", 4)
     rep.expect_min("R15.2-congruence", 4)
     rep.expect_min("R15.2-next-image", 2)
@@ -311,75 +313,166 @@ def _rekey(sym, index_param: str):
     return kind, key
 
 
-def _is_componentwise_map(m: ast.FunctionDef, clsname: str, entry: str) -> Tuple[Optional[bool], str]:
+class _ToScalar(ast.NodeTransformer):
+    """Rewrite the body of a per-component loop into a scalar function body: vec[idx] -> x, elt alias -> x."""
+
+    def __init__(self, vec: str, idx: str, elt: Optional[str]) -> None:
+        self.vec, self.idx, self.elt = vec, idx, elt
+
+    def visit_Subscript(self, node: ast.Subscript):
+        if isinstance(node.value, ast.Name) and node.value.id == self.vec and isinstance(node.slice, ast.Name) \
+                and node.slice.id == self.idx:
+            return ast.copy_location(ast.Name(id="@x", ctx=node.ctx), node)
+        return self.generic_visit(node)
+
+    def visit_Name(self, node: ast.Name):
+        if self.elt is not None and node.id == self.elt and isinstance(node.ctx, ast.Load):
+            return ast.copy_location(ast.Name(id="@x", ctx=ast.Load()), node)
+        return node
+
+
+def _component_loop(stmt: ast.stmt, vec: str) -> Optional[Tuple[str, Optional[str], List[ast.stmt], str]]:
+    """for idx, elt in enumerate(vec)  /  for idx in range(dimension | len(vec)) -> (idx, elt, body, coverage text)"""
+    if not isinstance(stmt, ast.For):
+        return None
+    it = stmt.iter
+    if isinstance(it, ast.Call) and isinstance(it.func, ast.Name) and it.func.id == "enumerate" and len(it.args) == 1 \
+            and isinstance(it.args[0], ast.Name) and it.args[0].id == vec and isinstance(stmt.target, ast.Tuple) \
+            and len(stmt.target.elts) == 2 and all(isinstance(e, ast.Name) for e in stmt.target.elts):
+        return stmt.target.elts[0].id, stmt.target.elts[1].id, stmt.body, "enumerate"
+    if isinstance(it, ast.Call) and isinstance(it.func, ast.Name) and it.func.id == "range" and len(it.args) == 1 \
+            and norm(it.args[0]) in ("dimension", f"len({vec})") and isinstance(stmt.target, ast.Name):
+        return stmt.target.id, None, stmt.body, "range"
+    return None
+
+
+def _interpret_component(body: List[ast.stmt], vec: str, idx: str, elt: Optional[str], clsname: str, resolve_symbol,
+                         entry_specs: Dict[str, Tuple]) -> Tuple[List[Tuple], List[ast.AST]]:
+    """Abstractly run one component of a vector loop. Returns ([(state, value, stmt)], wrong-component nodes)."""
+    tr = _ToScalar(vec, idx, elt)
+    new_body = [tr.visit(ast.parse(ast.unparse(s)).body[0]) for s in body]
+    fn = ast.FunctionDef(name="component", args=ast.arguments(posonlyargs=[], args=[ast.arg(arg="@x"), ast.arg(arg=idx)],
+                                                              kwonlyargs=[], kw_defaults=[], defaults=[]),
+                         body=new_body + [ast.Return(value=ast.Name(id="@x", ctx=ast.Load()))], decorator_list=[], lineno=1)
+    ast.fix_missing_locations(fn)
+    wrong: List[ast.AST] = []
+
+    def summary(call: ast.Call, st, interp):
+        f = call.func
+        if isinstance(f, ast.Attribute) and isinstance(f.value, ast.Name) and f.value.id in (clsname, "self", "cls") \
+                and f.attr in entry_specs and len(call.args) == 2:
+            if not (isinstance(call.args[1], ast.Name) and call.args[1].id == idx):
+                wrong.append(call)
+                return None
+            a = interp.eval(call.args[0], st)
+            lo, loc_, hi, hic = entry_specs[f.attr]
+            r = AVal(a.cx, a.cl, True, lo, not loc_, hi, not hic) if a.known else AVal(None, None, False, lo, not loc_, hi, not hic)
+            return r
+        return None
+
+    interp = EntryInterpreter(fn, "@x", lambda e: _rekey(resolve_symbol(e), idx), "*", call_summary=summary)
+    results = interp.run()
+    return results, wrong + interp.wrong_component
+
+
+def _check_vector_method(m: ast.FunctionDef, clsname: str, resolve_symbol, spec: Tuple, entry_specs) -> Tuple[Optional[bool], str]:
     params = [a.arg for a in m.args.args if a.arg not in ("self", "cls")]
     if len(params) != 1:
         return None, "unexpected signature"
     vec = params[0]
     body = [s for s in m.body if not (isinstance(s, ast.Expr) and isinstance(s.value, ast.Constant))]
-    if len(body) != 1 or not isinstance(body[0], ast.For):
+    if len(body) != 1:
         return None, "idiom not recognised (expected one loop over the components)"
-    loop = body[0]
-    idx = elt = None
-    it = loop.iter
-    if isinstance(it, ast.Call) and isinstance(it.func, ast.Name) and it.func.id == "enumerate" and len(it.args) == 1 \
-            and isinstance(it.args[0], ast.Name) and it.args[0].id == vec and isinstance(loop.target, ast.Tuple) \
-            and len(loop.target.elts) == 2 and all(isinstance(e, ast.Name) for e in loop.target.elts):
-        idx, elt = loop.target.elts[0].id, loop.target.elts[1].id
-    elif isinstance(it, ast.Call) and isinstance(it.func, ast.Name) and it.func.id == "range" \
-            and isinstance(loop.target, ast.Name):
-        idx = loop.target.id
-    else:
+    lp = _component_loop(body[0], vec)
+    if lp is None:
         return None, "loop idiom not recognised"
-    if len(loop.body) != 1 or not isinstance(loop.body[0], ast.Assign):
-        return None, "loop body idiom not recognised"
-    a = loop.body[0]
-    t = a.targets[0]
-    if not (isinstance(t, ast.Subscript) and isinstance(t.value, ast.Name) and t.value.id == vec
-            and isinstance(t.slice, ast.Name) and t.slice.id == idx):
-        return False, f"loop must write {vec}[{idx}]"
-    v = a.value
-    if not (isinstance(v, ast.Call) and isinstance(v.func, ast.Attribute) and v.func.attr == entry
-            and isinstance(v.func.value, ast.Name) and v.func.value.id in (clsname, "self", "cls")):
-        return False, f"component must be corrected with {clsname}.{entry}"
-    if len(v.args) != 2:
-        return False, "entry method takes (value, index)"
-    a0, a1 = v.args
-    arg_ok = (isinstance(a0, ast.Name) and a0.id == elt) or (norm(a0) == f"{vec}[{idx}]")
-    if not arg_ok:
-        return False, f"first argument must be component {idx} of {vec}"
-    if not (isinstance(a1, ast.Name) and a1.id == idx):
-        return False, f"index argument must be the component index `{idx}` (found {norm(a1)})"
+    idx, elt, lbody, _ = lp
+    try:
+        results, wrong = _interpret_component(lbody, vec, idx, elt, clsname, resolve_symbol, entry_specs)
+    except Undecided as u:
+        return None, str(u)
+    if wrong:
+        return False, f"component `{idx}` is corrected with the box length / entry method of another component: {norm(wrong[0])}"
+    lo, loc_, hi, hic = spec
+    for st, val, stmt in results:
+        if val is None or not within(val, lo, loc_, hi, hic):
+            return False, f"a component can end outside the required range; abstract result: {val.describe() if val else None}"
+        if not congruent_to_x(val, st):
+            return False, f"a component is not congruent to its input modulo L; abstract result: {val.describe()}"
     return True, ""
 
 
-def _check_separation_vector(m: ast.FunctionDef, clsname: str) -> Tuple[Optional[bool], str]:
+def _check_separation_vector(m: ast.FunctionDef, clsname: str, resolve_symbol, entry_specs, vector_ok: bool
+                             ) -> Tuple[Optional[bool], str]:
     params = [a.arg for a in m.args.args if a.arg not in ("self", "cls")]
     if len(params) != 2:
         return None, "unexpected signature"
     ref, tgt = params
     body = [s for s in m.body if not (isinstance(s, ast.Expr) and isinstance(s.value, ast.Constant))]
-    if len(body) != 3:
+    if not body or not isinstance(body[-1], ast.Return) or body[-1].value is None:
         return None, "idiom not recognised"
-    a, c, r = body
-    if not (isinstance(a, ast.Assign) and isinstance(a.targets[0], ast.Name) and isinstance(a.value, ast.ListComp)
-            and len(a.value.generators) == 1 and isinstance(a.value.generators[0].target, ast.Name)):
+    spec = entry_specs["correct_separation_entry"]
+    first = body[0]
+    # form 1: return [entry(tgt[i] - ref[i], i) for i in range(dimension)]
+    comp = None
+    if len(body) == 1 and isinstance(body[0].value, ast.ListComp):
+        comp, sep = body[0].value, None
+    elif isinstance(first, ast.Assign) and isinstance(first.targets[0], ast.Name) and isinstance(first.value, ast.ListComp):
+        comp, sep = first.value, first.targets[0].id
+    if comp is None or len(comp.generators) != 1 or not isinstance(comp.generators[0].target, ast.Name):
         return None, "idiom not recognised"
-    sep = a.targets[0].id
-    i = a.value.generators[0].target.id
-    it = a.value.generators[0].iter
+    i = comp.generators[0].target.id
+    it = comp.generators[0].iter
     if not (isinstance(it, ast.Call) and isinstance(it.func, ast.Name) and it.func.id == "range"
             and len(it.args) == 1 and norm(it.args[0]) in ("dimension", f"len({ref})", f"len({tgt})")):
         return False, f"components must range over the dimension (found {norm(it)})"
-    if norm(a.value.elt) != f"{tgt}[{i}] - {ref}[{i}]":
-        return False, f"separation must be target - reference per component (found {norm(a.value.elt)})"
-    if not (isinstance(c, ast.Expr) and isinstance(c.value, ast.Call) and isinstance(c.value.func, ast.Attribute)
-            and c.value.func.attr == "correct_separation" and isinstance(c.value.func.value, ast.Name)
-            and c.value.func.value.id in (clsname, "self", "cls")
-            and len(c.value.args) == 1 and norm(c.value.args[0]) == sep):
-        return False, "separation must be corrected with this class's correct_separation"
-    if not (isinstance(r, ast.Return) and r.value is not None and norm(r.value) == sep):
+    diff = f"{tgt}[{i}] - {ref}[{i}]"
+    elt = comp.elt
+    stmts: List[ast.stmt] = []
+    if norm(elt) == diff:
+        pass
+    elif isinstance(elt, ast.Call) and len(elt.args) == 2 and norm(elt.args[0]) == diff:
+        stmts.append(ast.parse(f"__v[{i}] = {ast.unparse(elt).replace(diff, '__v[' + i + ']')}").body[0])
+    else:
+        return False, f"separation must start from target - reference per component (found {norm(elt)})"
+    vec = "__v"
+    idx = i
+    loops_done = False
+    for st in body[1:-1]:
+        if isinstance(st, ast.Expr) and isinstance(st.value, ast.Call) and isinstance(st.value.func, ast.Attribute) \
+                and st.value.func.attr == "correct_separation" and isinstance(st.value.func.value, ast.Name) \
+                and st.value.func.value.id in (clsname, "self", "cls") and len(st.value.args) == 1 and norm(st.value.args[0]) == sep:
+            if not vector_ok:
+                return False, "relies on correct_separation, which is itself not a valid componentwise correction"
+            stmts.append(ast.parse(f"__v[{idx}] = {clsname}.correct_separation_entry(__v[{idx}], {idx})").body[0])
+        else:
+            lp = _component_loop(st, sep) if sep else None
+            if lp is None:
+                return None, f"statement not recognised: {norm(st)}"
+            lidx, lelt, lbody, _ = lp
+            ren = _ToScalar(sep, lidx, lelt)
+            for s2 in lbody:
+                t = ren.visit(ast.parse(ast.unparse(s2)).body[0])
+                txt = ast.unparse(t).replace("@x", f"__v[{idx}]")
+                if lidx != idx:
+                    import re as _re
+                    txt = _re.sub(rf"\b{lidx}\b", idx, txt)
+                stmts.append(ast.parse(txt).body[0])
+    if sep is not None and norm(body[-1].value) != sep:
         return False, "must return the corrected separation"
+    try:
+        results, wrong = _interpret_component(stmts, vec, idx, None, clsname, resolve_symbol, entry_specs)
+    except Undecided as u:
+        return None, str(u)
+    if wrong:
+        return False, f"a component is corrected with the box length / entry method of another component: {norm(wrong[0])}"
+    lo, loc_, hi, hic = spec
+    for st, val, stmt in results:
+        if val is None or not within(val, lo, loc_, hi, hic):
+            return False, (f"a component of the separation can exceed half the box length for some pair of positions; abstract "
+                           f"result: {val.describe() if val else None}")
+        if not congruent_to_x(val, st):
+            return False, f"a component is not congruent to target - reference modulo L; abstract result: {val.describe()}"
     return True, ""
 
 
